@@ -347,6 +347,21 @@ Lemma srgba8_per_channel (powf : R -> R -> R) x y z w :
   channel (linear_to_srgba8 powf x y z w) 3 = cvt (maxR w 0).
 Proof. unfold linear_to_srgba8. apply pack_channels; apply cvt_range. Qed.
 
+(* per-channel independence: byte k of the packed word does not change when the other three components do *)
+Lemma srgba8_channel_independent (powf : R -> R -> R) x y z w x' y' z' w' :
+  channel (linear_to_srgba8 powf x y z w) 0 = channel (linear_to_srgba8 powf x y' z' w') 0 /\
+  channel (linear_to_srgba8 powf x y z w) 1 = channel (linear_to_srgba8 powf x' y z' w') 1 /\
+  channel (linear_to_srgba8 powf x y z w) 2 = channel (linear_to_srgba8 powf x' y' z w') 2 /\
+  channel (linear_to_srgba8 powf x y z w) 3 = channel (linear_to_srgba8 powf x' y' z' w) 3.
+Proof.
+  destruct (srgba8_per_channel powf x y z w) as (A0 & A1 & A2 & A3).
+  destruct (srgba8_per_channel powf x y' z' w') as (B0 & _).
+  destruct (srgba8_per_channel powf x' y z' w') as (_ & C1 & _).
+  destruct (srgba8_per_channel powf x' y' z w') as (_ & _ & D2 & _).
+  destruct (srgba8_per_channel powf x' y' z' w) as (_ & _ & _ & E3).
+  rewrite A0, A1, A2, A3, B0, C1, D2, E3. repeat split; reflexivity.
+Qed.
+
 (* ---------------------------------------------------------- distributions *)
 Section Dist.
   Variable rn : R -> R.
